@@ -85,6 +85,21 @@ theorem quiescent_fresh (g : Graph) (sem : Sem) (T : List Target) (names order :
   quiescent_fresh_from g sem T order hs hT htopo _
     (requested_inv3 g sem hs T names hT hall source store seen) ops hv hq st0
 
+/-- ... and nothing runs without a cause afterwards: at quiescence a dispatch tick releases
+    nothing and leaves the whole world as it is (so the store stays equal to the from-scratch
+    result until new source data or a request arrives). -/
+theorem quiet_dispatch_noop (g : Graph) (outs : Name → List Val) (w : W) (hq : Quiet w) :
+    (dispatch g w.s).2 = [] ∧ (stepW g outs w (.sched .dispatch)).s = w.s ∧
+    (stepW g outs w (.sched .dispatch)).store = w.store := by
+  obtain ⟨hque, _, _⟩ := hq
+  have h1 : dispatch g w.s = (w.s, []) := by
+    unfold dispatch
+    split
+    · rfl
+    · simp [hque, releaseAll, dedupNames, byLevel]
+  refine ⟨by rw [h1], ?_, rfl⟩
+  simp only [stepW, step, h1]
+
 /-- The from-scratch result does not depend on what was in the store before. -/
 theorem scratch_independent (g : Graph) (sem : Sem) (hs : SemOk g sem) (order : List Name)
     (htopo : Topo g sem order) (source : Name → Target → Content) (t : Target)
